@@ -111,7 +111,15 @@ static long forced_err(int it){ int p[2]; if(pipe(p)) return 0; g_it=it;
 // handler asks to be run again; the handler is held just before that (at the hold it takes for the delivery) while this thread stops
 // A - which removes the queued read - and schedules reads of B: the first of them finds the list empty and asks for the handler too.
 // Both requests then meet an empty pipe; the readiness source may be armed once.
-static long forced_twice(int it){ int p[2]; if(pipe(p)) return 0; g_it=it;
+// variant (idle = 1): only ONE read of B is scheduled; the first of the two handler requests meets the empty pipe and is held just
+// before it arms the source, four bytes arrive, it goes on; the second request reads them and completes the read - the list is empty
+// while the source is armed (no event will come: the data is gone). The teardown cancels and resumes the source: it must have been
+// suspended by then (F35).
+extern void (*_dispatch_verif_yield_cb)(const volatile void *addr, const char *func, int line);
+static atomic_int y_arm, y_held, y_go;
+static void fycb(const volatile void *addr, const char *func, int line){ (void)line; if(addr!=SRC || !SRC || strcmp(func,"_dispatch_lane_resume") || pthread_equal(pthread_self(),main_th)) return;
+  if(atomic_exchange(&y_arm,0)){ atomic_store(&y_held,1); for(int w=0; w<20000 && !atomic_load(&y_go); w++) usleep(50); } }
+static long forced_twice(int it, int idle){ int p[2]; if(pipe(p)) return 0; g_it=it;
   dispatch_queue_t hq=dispatch_queue_create("h",NULL), cq=dispatch_queue_create("c",NULL); dispatch_semaphore_t cs=dispatch_semaphore_create(0);
   dispatch_io_t A=dispatch_io_create(DISPATCH_IO_STREAM,p[0],cq,^(int e){ (void)e; dispatch_semaphore_signal(cs); });
   dispatch_io_t B=dispatch_io_create(DISPATCH_IO_STREAM,p[0],cq,^(int e){ (void)e; dispatch_semaphore_signal(cs); });
@@ -124,19 +132,24 @@ static long forced_twice(int it){ int p[2]; if(pipe(p)) return 0; g_it=it;
   atomic_store(&f_skip,1); _dispatch_verif_atomic_cb=fcb; atomic_store(&f_arm,1);     // skip the handler's own hold, stop at the one it takes for the delivery
   if(write(p[1],"0123",4)!=4) return 0;
   for(int w=0; w<4000 && !atomic_load(&f_held); w++) usleep(50);
-  dispatch_io_close(A,DISPATCH_IO_STOP);
-  for(int k=0;k<3;k++) dispatch_io_read(B,0,4,hq,^(bool done, dispatch_data_t d, int e){ (void)d;(void)e; if(done) atomic_fetch_add(&b_done,1); });
-  usleep(2000); atomic_store(&f_go,1); usleep(2000); _dispatch_verif_atomic_cb=cb; atomic_store(&f_arm,0);
-  if(write(p[1],"456789abcdef",12)!=12){} usleep(500); close(p[1]);
-  for(int w=0; w<3000 && atomic_load(&b_done)<3; w++) usleep(1000);
-  if(atomic_load(&b_done)<3) fail("reads scheduled right behind the stop of another channel of the descriptor were never served (3 s after their data and end of file had arrived): iteration / completed of 3 / handler was held",it,atomic_load(&b_done),atomic_load(&f_held));
+  dispatch_io_close(A,DISPATCH_IO_STOP); int nb = idle ? 1 : 3;
+  for(int k=0;k<nb;k++) dispatch_io_read(B,0,4,hq,^(bool done, dispatch_data_t d, int e){ (void)d;(void)e; if(done) atomic_fetch_add(&b_done,1); });
+  if(idle){ atomic_store(&y_held,0); atomic_store(&y_go,0); _dispatch_verif_yield_cb=fycb; atomic_store(&y_arm,1); }
+  usleep(2000); atomic_store(&f_go,1);
+  if(idle){ for(int w=0; w<4000 && !atomic_load(&y_held); w++) usleep(50);       // the first request is about to arm the source
+    if(write(p[1],"4567",4)!=4){} usleep(200); atomic_store(&y_go,1); usleep(3000); _dispatch_verif_yield_cb=0; atomic_store(&y_arm,0); }
+  usleep(2000); _dispatch_verif_atomic_cb=cb; atomic_store(&f_arm,0);
+  if(!idle){ if(write(p[1],"456789abcdef",12)!=12){} usleep(500); close(p[1]); }
+  for(int w=0; w<3000 && atomic_load(&b_done)<nb; w++) usleep(1000);
+  if(idle){ usleep(20000); close(p[1]); }
+  if(atomic_load(&b_done)<nb) fail("reads scheduled right behind the stop of another channel of the descriptor were never served (3 s after their data and end of file had arrived): iteration / completed / handler was held",it,atomic_load(&b_done),atomic_load(&f_held));
   for(int w=0; w<3000 && atomic_load(&a_done)<2; w++) usleep(1000);
   dispatch_io_close(B,0); dispatch_release(A); dispatch_release(B);
   for(int c=0;c<2 && !viol;c++) if(dispatch_semaphore_wait(cs,dispatch_time(DISPATCH_TIME_NOW,10ll*1000000000ll))) fail("a cleanup handler never ran (10 s) after the forced double request: iteration",it,0,0);
   SRC=NULL; close(p[0]); dispatch_sync(hq,^{}); dispatch_release(hq); dispatch_release(cq); dispatch_release(cs); return 5; }
 int main(int argc,char**argv){ seed=argc>1?strtoull(argv[1],0,0):1; int iters=argc>2?atoi(argv[2]):400; rs=seed;
   signal(SIGILL,on_crash); signal(SIGSEGV,on_crash); signal(SIGABRT,on_crash); signal(SIGBUS,on_crash); signal(SIGPIPE,SIG_IGN);
-  main_th=pthread_self(); _dispatch_verif_atomic_cb=cb; long n=0; for(int i=0;i<iters && !viol;i++){ n+=iteration(i); if(i%100==0 && !viol && !getenv("REARM_SKIP_ERR")) n+=forced_err(i); if(i%100==(getenv("REARM_SKIP_ERR")?0:50) && !viol) n+=forced_twice(i); } _dispatch_verif_atomic_cb=0;
+  main_th=pthread_self(); _dispatch_verif_atomic_cb=cb; long n=0; for(int i=0;i<iters && !viol;i++){ n+=iteration(i); if(i%100==0 && !viol && !getenv("REARM_SKIP_ERR")) n+=forced_err(i); if(i%100==(getenv("REARM_SKIP_ERR")?0:50) && !viol) n+=forced_twice(i,0); if(i%100==25 && !viol) n+=forced_twice(i,1); } _dispatch_verif_atomic_cb=0;
   if(viol){ printf("ORACLE VIOL seed=%llu %s\n",(unsigned long long)seed,vmsg); fflush(stdout); _exit(1); }
   printf("ORACLE ok items=%ld source_transitions=%lu\n",n,atomic_load(&ntl));
   { unsigned long k=atomic_load(&ntl); if(k>MAXT) k=MAXT; for(unsigned long i=0;i<k;i++) printf("T %d %c\n",tlog[i].it,tlog[i].k); }
